@@ -2,6 +2,7 @@
 //! first epoch, invalid blocks anywhere) delivered to a real node in arbitrary
 //! order (children before parents, duplicates), observed at quiescence after
 //! every delivery.
+use ckb_store::ChainStore;
 use crate::node::*;
 use crate::tree::*;
 use ckb_chain::VerifyResult;
@@ -193,6 +194,41 @@ pub fn run(seed: u64, thorough: bool, out_dir: &std::path::Path) -> Out {
                     obs.push((tip_td, orphans));
                 }
                 let final_tip = last_tip.0;
+                // what is recorded for every processed block: accumulated difficulty; a verified flag,
+                // when there is one, says whether the whole chain below is valid; the main chain is
+                // exactly the path of the tip
+                {
+                    let store = node.shared.store();
+                    for d in delivered.iter() {
+                        let path = tree.path(*d);
+                        if !path.iter().all(|a| delivered.contains(a)) { continue; }
+                        let h = tree.node(*d).block.hash();
+                        match store.get_block_ext(&h) {
+                            None => {
+                                // no record: the block or an ancestor failed non-contextual verification, or a
+                                // contextually invalid ancestor got the branch deleted
+                                if good[d] { viol.push(json!({"what": "a fully valid, connected block has no BlockExt record", "detail": {"case": jcase, "block": d}})); }
+                            }
+                            Some(ext) => {
+                                if u256_to_u128(&ext.total_difficulty) != td[d] {
+                                    viol.push(json!({"what": format!("BlockExt.total_difficulty of block {d} is {} instead of {}", u256_to_u128(&ext.total_difficulty), td[d]), "detail": {"case": jcase}}));
+                                }
+                                if ext.verified == Some(true) && !good[d] { viol.push(json!({"what": "a block on an invalid chain is recorded as verified", "detail": {"case": jcase, "block": d}})); }
+                                if ext.verified == Some(false) && good[d] { viol.push(json!({"what": "a fully valid block is recorded as invalid", "detail": {"case": jcase, "block": d}})); }
+                            }
+                        }
+                    }
+                    let tip_path: Vec<u64> = if final_tip == 0 { vec![] } else { tree.path(final_tip) };
+                    for (k, id) in tip_path.iter().enumerate() {
+                        let want = tree.node(*id).block.hash();
+                        if store.get_block_hash(k as u64 + 1) != Some(want) {
+                            viol.push(json!({"what": format!("the main-chain index at height {} is not the tip's ancestor {id}", k + 1), "detail": {"case": jcase}}));
+                        }
+                    }
+                    if store.get_block_hash(tip_path.len() as u64 + 1).is_some() {
+                        viol.push(json!({"what": "the main-chain index continues above the tip", "detail": {"case": jcase}}));
+                    }
+                }
                 node.stop();
                 (obs, final_tip, viol)
             }));
